@@ -258,7 +258,12 @@ def run(ctx):
 
     def do_cmp(a, b, ga=None, gb=None, model=True):
         case = {"kind": "cmp", "a": list(a), "b": list(b)}
-        ga = ga or Genotype(list(a)); gb = gb or Genotype(list(b))
+        try:
+            ga = ga or Genotype(list(a)); gb = gb or Genotype(list(b))
+        except RuntimeError as e:
+            ctx.evaluated()
+            ctx.fail(f"Genotype({list(a)}) or Genotype({list(b)}) within the limits raised {e}", case, key="geno-ctor")
+            return
         obs = {"eq": bool(ga == gb), "ne": bool(ga != gb), "lt": bool(ga < gb)}
         ctx.evaluated()
         sa, sb = sorted(a), sorted(b)
@@ -369,6 +374,13 @@ def run(ctx):
         restore every observable must be that of a fresh genotype with those alleles"""
         case = {"kind": "reuse", "chain": [list(c) for c in chain], "queries": [list(q) for q in queries]}
         ctx.evaluated()
+        try:
+            return do_reuse_(case, chain, queries)
+        except RuntimeError as e:
+            # all genotypes of a chain are within the limits: nothing here may raise
+            ctx.fail(f"re-using one Genotype object over {case['chain']} raised {e}", case, key="geno-ctor")
+
+    def do_reuse_(case, chain, queries):
         g = Genotype(list(chain[0]))
         for step, (al, q) in enumerate(zip(chain[1:], queries)):
             for what in q:
@@ -378,7 +390,11 @@ def run(ctx):
                 elif what == "vector": g.as_vector()
                 elif what == "str": str(g)
             fresh = Genotype(list(al))
-            g.__setstate__(fresh.__getstate__())
+            try:
+                g.__setstate__(fresh.__getstate__())
+            except RuntimeError:
+                immortal(g)            # F20: the object is dangling now
+                raise
             srt = sorted(al)
             obs = {"vector": list(g.as_vector()), "index": g.get_index(), "ploidy": g.get_ploidy(),
                    "state": [int(x) for x in g.__getstate__()], "eq": bool(g == fresh), "lt": bool(g < fresh) or bool(fresh < g),
@@ -398,7 +414,12 @@ def run(ctx):
         order = vcf_order(p, a)
         idx = []
         for g in order:
-            idx.append(Genotype(list(g)).get_index())
+            try:
+                idx.append(Genotype(list(g)).get_index())
+            except RuntimeError as e:
+                ctx.evaluated()
+                ctx.fail(f"Genotype({list(g)}) within the limits raised {e}", case, key="geno-ctor")
+                return
         ctx.evaluated()
         if idx != list(range(len(order))):
             bad = next(i for i, x in enumerate(idx) if x != i)
@@ -482,7 +503,11 @@ def run(ctx):
                 ctx.fail(f"Genotype({list(alleles)}) within the limits raised {obs}", case, key="geno-ctor")
             else:
                 check_word_obs(obs, sorted(alleles), case, f"C++ Genotype({list(alleles)})")
-                g = Genotype(list(alleles))
+                try:
+                    g = Genotype(list(alleles))
+                except RuntimeError as e:
+                    ctx.fail(f"whatshap.core.Genotype({list(alleles)}) raised {e}, the separately compiled class did not", case, key="word-module")
+                    return
                 via_module = {"vector": list(g.as_vector()), "index": g.get_index(), "ploidy": g.get_ploidy(), "none": bool(g.is_none()),
                               "hom": bool(g.is_homozygous()), "dipbi": bool(g.is_diploid_and_biallelic()),
                               "str": None if str(g) == "." else [int(x) for x in str(g).split("/")], "hash": hash(g)}
@@ -641,7 +666,11 @@ def run(ctx):
 
     # ---------------------------------------------------------------- F10 observation: pickle / copy
     for al in ([0, 1], [2, 0, 1, 1], []):
-        g = Genotype(al)
+        try:
+            g = Genotype(al)
+        except RuntimeError as e:
+            ctx.fail(f"Genotype({al}) raised {e}", {"kind": "geno", "alleles": al}, key="geno-ctor")
+            continue
         for name, f in (("pickle", lambda x: pickle.loads(pickle.dumps(x))), ("copy.copy", copy.copy), ("copy.deepcopy", copy.deepcopy)):
             try:
                 h = f(g)
@@ -738,19 +767,42 @@ def run(ctx):
     impl_lim = {"max_ploidy": whatshap.core.get_max_genotype_ploidy(), "max_alleles": whatshap.core.get_max_genotype_alleles()}
     if impl_lim != {"max_ploidy": shim.lib.c19_max_ploidy(), "max_alleles": shim.lib.c19_max_alleles()}:
         ctx.fail(f"whatshap.core reports limits {impl_lim}, genotype.cpp others", {"kind": "limits"}, key="limits-module")
-    if impl_lim != lim:
-        ctx.disagree("c19.limits", {"kind": "limits"}, impl_lim, lim)
+    as_coded = {"max_ploidy": lim["max_ploidy"], "max_alleles": lim["max_alleles"]}
+    repaired = {"max_ploidy": lim["max_ploidy_repaired"], "max_alleles": lim["max_alleles"]}      # fixes/F55.patch
+    if impl_lim not in (as_coded, repaired):
+        ctx.disagree("c19.limits", {"kind": "limits"}, impl_lim, [as_coded, repaired])
     if shim.lib.c19_empty_code() != 0:
         ctx.fail("Genotype() is not the zero word", {"kind": "limits"}, key="word-empty")
     # F55: is the advertised maximum ploidy constructible?  (vcf.py lets ploidy <= get_max_genotype_ploidy() through)
     mp = impl_lim["max_ploidy"]
     adv = shim.from_alleles([0] * mp)
     if "err" in adv:
+        how = "?"
+        wd = ctx.workdir()
+        try:
+            from whatshap.vcf import VcfReader
+            path = os.path.join(wd, "f55.vcf")
+            with open(path, "w") as f:
+                f.write("##fileformat=VCFv4.2\n##contig=<ID=chr1,length=1000>\n##FORMAT=<ID=GT,Number=1,Type=String,Description=\"g\">\n"
+                        "#CHROM\tPOS\tID\tREF\tALT\tQUAL\tFILTER\tINFO\tFORMAT\ts1\n"
+                        "chr1\t100\t.\tA\tC\t.\t.\t.\tGT\t" + "/".join(["0"] * (mp - 1) + ["1"]) + "\n")
+            try:
+                for _ in VcfReader(path, ploidy=None):
+                    pass
+                how = "is read"
+            except Exception as e:
+                how = f"makes VcfReader raise {type(e).__name__}: {str(e)[:60]}"
+        finally:
+            import shutil
+            shutil.rmtree(wd, ignore_errors=True)
         ctx.observe(f"F55: get_max_genotype_ploidy() = {mp} (used by vcf.py for its PloidyError), but Genotype([0]*{mp}) raises "
                     f"{adv['err']!r} (vector constructor: ploidy >= MAX_PLOIDY); Genotype(index, {mp}) is accepted: "
-                    f"{'ok' if 'err' not in shim.from_index(0, mp) else 'err'}; the limits the property names are 14/16")
+                    f"{'yes' if 'err' not in shim.from_index(0, mp) else 'no'}; a VCF with a GT of ploidy {mp} {how}; "
+                    f"the limits the property names are 14/16; fixes/F55.patch makes the advertised limit {mp - 1}")
     else:
-        do_word([rng.randrange(16) for _ in range(mp)])
+        for _ in range(20):
+            do_word([rng.randrange(16) for _ in range(mp)])
+            do_geno([rng.randrange(16) for _ in range(mp)])
     # exhaustive small space through both constructors
     n_fi = 0
     for p in range(0, EP + 1):
